@@ -11,6 +11,11 @@ func H16KeyHeader() {
 	nk := vndParam("keys")
 	nf := vndParam("fields")
 	expr := []string{"", "a", "a,b", "a,b,c"}[nf]
+	if vndParam("num") == 1 {
+		// the numeric order, under which the non-numeric values x and y compare equal: a cell
+		// still spans columns with the same *value*, not columns that sort alike
+		expr = []string{"", "a@num", "a@num,b", "a,b@num,c"}[nf]
+	}
 	var pp ProjectionParser
 	proj, err := pp.Parse(expr, nil)
 	if err != nil {
@@ -23,8 +28,13 @@ func H16KeyHeader() {
 		vals[i] = make([]byte, nf)
 		res := &benchfmt.Result{Name: benchfmt.Name("B"), Iters: 1}
 		for f := 0; f < nf; f++ {
-			c := vndByte("v")
-			vndAssume(vndOr(c == 0, vndOr(c == 'x', c == 'y')))
+			var c byte
+			if vndParam("num") == 1 {
+				c = []byte{0, 'x', 'y'}[vndChoice("v", 3)] // concrete: the order's number parser is a regexp
+			} else {
+				c = vndByte("v")
+				vndAssume(vndOr(c == 0, vndOr(c == 'x', c == 'y')))
+			}
 			vals[i][f] = c
 			if c != 0 {
 				res.Config = append(res.Config, benchfmt.Config{Key: names[f], Value: []byte{c}, File: true})
